@@ -81,10 +81,12 @@ def check_property(prop, tier):
 
     # ---------------- T3: bounded run-time contracts on the real functions
     results, info3 = [], {}
+    suite = None
     if getattr(P, 'T3', False):
         from rtc import api
-        budget = P.T3_BUDGET[0 if tier == 'quick' else 1]
-        results, info3 = api.run_suite(prop, tier, seed, budget, case_timeout=getattr(P, 'T3_CASE_TIMEOUT', 60))
+        suite = api.load_suite(prop)
+        budget = getattr(suite, 'BUDGET', (120, 900))[0 if tier == 'quick' else 1]
+        results, info3 = api.run_suite(prop, tier, seed, budget, case_timeout=getattr(suite, 'CASE_TIMEOUT', 60))
     npass = sum(1 for r in results if r[2] == 'pass')
     ntriv = sum(1 for r in results if r[2] == 'trivial')
     nskip = sum(1 for r in results if r[2] == 'skip')
@@ -96,7 +98,7 @@ def check_property(prop, tier):
         per_clause[r[0]][r[2]] += 1
     if getattr(P, 'T3', False):
         from rtc import api
-        declared = set(getattr(P, 'T3_CLAUSES', []))
+        declared = {c for c in api.CLAUSES if c.startswith(prop + '.')}
         missing = declared - set(per_clause)
         if missing and not info3.get('dropped_by_wall_clock_guard'):
             undecided.append('vacuity guard: declared clauses without a case: ' + ', '.join(sorted(missing)))
@@ -179,7 +181,7 @@ def check_property(prop, tier):
         'bounded': {
             'label': 'bounded run-time contract evaluation (T3) - never counted as proved',
             'evaluations': len(results), 'passed_nontrivial': npass, 'trivial': ntriv, 'skipped': nskip,
-            'failed': len(t3_fail), 'per_clause': per_clause, 'bounds': getattr(P, 'T3_BOUNDS', ''),
+            'failed': len(t3_fail), 'per_clause': per_clause, 'bounds': getattr(suite, 'BOUNDS', ''),
             **info3,
         },
         'evaluations': len(results) + n_ob,
